@@ -648,7 +648,7 @@ bool url::set_host_or_hostname(const std::string_view input) {
       // state.
       std::string_view port_buffer = new_host.substr(location + 1);
       if (!port_buffer.empty()) {
-        set_port(port_buffer);
+        set_port_impl<false>(port_buffer);
       }
       return check_url_size();
     }
@@ -746,7 +746,8 @@ bool url::set_password(const std::string_view input) {
   return true;
 }
 
-bool url::set_port(const std::string_view input) {
+template <bool check_length>
+bool url::set_port_impl(const std::string_view input) {
   if (cannot_have_credentials_or_port()) {
     return false;
   }
@@ -778,15 +779,21 @@ bool url::set_port(const std::string_view input) {
   std::optional<uint16_t> previous_port = port;
   parse_port(digits_to_parse);
   if (is_valid) {
-    if (get_href_size() > ada::get_max_input_length()) {
-      port = std::move(previous_port);
-      return false;
+    if constexpr (check_length) {
+      if (get_href_size() > ada::get_max_input_length()) {
+        port = std::move(previous_port);
+        return false;
+      }
     }
     return true;
   }
   port = std::move(previous_port);
   is_valid = true;
   return false;
+}
+
+bool url::set_port(const std::string_view input) {
+  return set_port_impl<true>(input);
 }
 
 void url::set_hash(const std::string_view input) {
